@@ -59,10 +59,15 @@ CLAIMED["C01"] = {
     "note": "trusts: stdlib zoneinfo + tzdata package as reference; the instant of a foreign aware datetime is taken from its own tzinfo; pytz sources restricted to whole-minute offsets (pytz rounds LMT offsets)",
 }
 
+CLAIMED["C05"] = {
+    "text": "Narrow claim - the two facets of this input-quantified property that meet a seam. (1) Interval construction takes a different route (and Python compares by wall clock) when both endpoints carry the same tzinfo object; whether two values in one named zone share the object is decided by zoneinfo's weak cache, i.e. by history. Seeded search over interleavings in which the endpoints are built inside the op while a nemesis clears the zone cache, other threads build the same zones, and restarts happen between dependent ops: b - a, diff(), interval(), abs(), negation, in_seconds/minutes/hours and subtraction of native datetimes must equal the cold re-execution and the exact integer-microsecond distance of the two instants. (2) diff() without argument must be the magnitude against the simulated clock, linearised over clock moves.",
+    "ref": "DESIGN.md §5 C05",
+    "note": "trusts: stdlib zoneinfo for the instants of the endpoints; exactness asserted below 2**33 s and 64 us beyond, as the statement says; the input-universal part of the property (all pairs over years 1..9999) is not decided",
+}
+
 NOT_APPLICABLE = {
     "C03": "pure function of its arguments and immutable zone data: no clock, shared mutable slot, configuration or I/O in add/subtract with fixed units; nothing for a scheduler or fault injector to vary",
     "C04": "pure function of its arguments (calendar arithmetic + construction rules); Duration fields it reads are written once in __new__; no schedule, clock or fault dependence",
-    "C05": "interval length is computed in Interval.__new__ from the two endpoint values only; the only branch on ambient state (tzinfo identity) is directly controlled by the caller's inputs",
     "C07": "parsing is a pure function of the string and options in both backends; the clock only supplies a date the statement does not constrain",
     "C10": "operators read only fields written once in __new__; no lazy slot, global, clock or I/O",
     "C11": "accessors of an immutable value vs the native object with the same fields; any ambient state enters both through the same inherited C code",
@@ -81,7 +86,7 @@ PENDING = {p: "simulation target per DESIGN.md §5, check still under constructi
            for p in ()}
 
 FIX_COMMITS = ["0cac821 (C09 lazy-slot race)", "c2f908d (previous() never terminates across a skipped calendar day; C12/C16)",
-               "2c83944 (next() drifts to 01:00 after a skipped midnight; C16)", "6249586 (C12 week configuration read twice)", "1273e62 (C16 first_of/last_of depend on calendar.setfirstweekday())", "9fab684 (C02 mock local zone read twice)", "fc92ad3 (C06 precise_diff full-month shortcut, Python + Rust)", "b63f456 (Interval.__init__ dropped endpoint fold; C18)", "a0e6037 (zh before/after templates; C18)", "5ef6d18 (nl week_data misplaced; C18)", "89fb712 (Rust ordinal dates on month ends; C08)", "ab5eca4 (z token regex; C08)", "77c9f3a (from_format escaped literals; C08)", "7d62906 + 71470da (Do token in from_format; C08)", "a8ba9ca (instance() of pytz second-pass datetimes; C01)", "df3000b (instance() of pytz.FixedOffset; C01)"]
+               "2c83944 (next() drifts to 01:00 after a skipped midnight; C16)", "6249586 (C12 week configuration read twice)", "1273e62 (C16 first_of/last_of depend on calendar.setfirstweekday())", "9fab684 (C02 mock local zone read twice)", "fc92ad3 (C06 precise_diff full-month shortcut, Python + Rust)", "b63f456 (Interval.__init__ dropped endpoint fold; C18)", "a0e6037 (zh before/after templates; C18)", "5ef6d18 (nl week_data misplaced; C18)", "89fb712 (Rust ordinal dates on month ends; C08)", "ab5eca4 (z token regex; C08)", "77c9f3a (from_format escaped literals; C08)", "7d62906 + 71470da (Do token in from_format; C08)", "a8ba9ca (instance() of pytz second-pass datetimes; C01)", "df3000b (instance() of pytz.FixedOffset; C01)", "a2ae08e (Interval endpoint order by instant for shared tzinfo; C05/C18)"]
 
 
 def main():
